@@ -204,9 +204,21 @@ func init() {
 				}
 				for _, alt := range c18Variants(p, rng, tierN(tier, 3, 6)) {
 					jobs = append(jobs, relJob(fmt.Sprintf("c18-%d", n), "zzH_C18",
-						map[string]string{"path": p.Text, "alt": alt, "holes": p.Holes, "config": cfg}, p, tier))
+						map[string]string{"path": p.Text, "alt": alt, "holes": p.Holes, "config": cfg, "holepos": "", "altpos": ""}, p, tier))
 					n++
 				}
+			}
+			// quote style with a free byte inside the name: `$['aXb']` vs `$["aXb"]`, X any ASCII byte but quotes/backslash
+			for i, q := range []struct{ a, b, pa, pb, ast string }{
+				{"$['aXb']", "$[\"aXb\"]", "4", "4", "(path (name aXb))"},
+				{"$.k['X']", "$.k[\"X\"]", "5", "5", "(path (name k) (name X))"},
+				{"$..['aX']", "$..[\"aX\"]", "6", "6", "(path (desc (name aX)))"},
+				{"$['X','b']", "$[\"X\",'b']", "3", "3", "(path (multi (n X) (n b)))"},
+				{"$[?(@['X'] == 1)]", "$[?(@[\"X\"] == 1)]", "7", "7", "(path)"},
+			} {
+				p := Path{Depth: 2}
+				jobs = append(jobs, relJob(fmt.Sprintf("c18q-%d", i), "zzH_C18",
+					map[string]string{"path": q.a, "alt": q.b, "holes": "", "config": "", "holepos": q.pa, "altpos": q.pb}, p, tier))
 			}
 			return jobs
 		},
